@@ -9,7 +9,7 @@
 #include "types.h"
 /*@unit {'name':'c02_readpass_header', 'props':['C02','C01'], 'entry':'h_header', 'enforce':'Pass_readPass_header',
   'claims':'the fixed 40-byte header of a pass is read with exactly 40 bytes consumed, and the stored loop limit m_iMaxLoop is at least 1 whatever byte the font declares'}@*/
-/*@unit {'name':'c02_rule_loop', 'props':['C02'], 'entry':'h_loop', 'enforce':'Pass_runGraphite_loop', 'min_loops':1, 'defines':['LOOP'],
+/*@unit {'name':'c02_rule_loop', 'props':['C02','C06'], 'entry':'h_loop', 'enforce':'Pass_runGraphite_loop', 'min_loops':1, 'defines':['LOOP'],
   'claims':'Pass::runGraphite rule loop (findNDoRule a contract stub that may move the cursor, the high-water mark and the passed flag arbitrarily): with m_iMaxLoop >= 1 the counter lc stays in [1, m_iMaxLoop], so a cursor position gets at most m_iMaxLoop consecutive rule attempts before the cursor is forced to the high-water mark and the mark advanced; the loop ends only on a NULL cursor or a failed machine'}@*/
 /*@include slots.tc@*/
 /*@include endian.tc@*/
@@ -64,6 +64,7 @@ typedef struct FiniteStateMachine FiniteStateMachine;
 typedef struct Pass { byte m_iMaxLoop; } Pass;
 Machine *g_m; const Pass *g_pass;
 int g_run;                       /* ghost: consecutive rule attempts since the counter was last reset */
+Slot *g_s1, *g_hw1; bool g_hp1; int g_run1;   /* ghost: cursor, high-water mark, passed flag and attempt count right after the rule ran */
 Slot *nondet_slotp(void);
 /* stub for Pass::findNDoRule: runs one rule (or advances the cursor when none matches); may leave the cursor, the high-water
    mark, the passed flag and the machine status in any state */
@@ -71,7 +72,7 @@ static void Pass_findNDoRule(const Pass *self, Slot **slot, Machine *m, FiniteSt
 { (void)self; (void)fsm; *slot = pick_slot(); m->_map->m_highwater = pick_slot(); m->_map->m_highpassed = nondet_int() != 0; m->_status = nondet_int() ? finished : died_early; }
 bool Pass_runGraphite_loop(const Pass *self, Machine *m, FiniteStateMachine *fsm, Slot *s)
 __CPROVER_requires(self == g_pass && m == g_m && self->m_iMaxLoop >= 1)          /* >= 1: unit c02_readpass_header */
-__CPROVER_assigns(g_run, m->_map->m_highwater, m->_map->m_highpassed, m->_status)
+__CPROVER_assigns(g_run, g_s1, g_hw1, g_hp1, g_run1, m->_map->m_highwater, m->_map->m_highpassed, m->_status)
 __CPROVER_ensures(1);
 /*@extract {'file':'src/Pass.cpp', 'kind':'range', 'scope': r'bool Pass::runGraphite\(vm::Machine & m, FiniteStateMachine & fsm, bool reverse\) const',
    'start': r'int lc = m_iMaxLoop;', 'end': r'\} while \(s\);', 'end_inclusive': True,
@@ -80,9 +81,11 @@ __CPROVER_ensures(1);
            [r'm\.slotMap\(\)\.highwater\(\)', 'SlotMap_highwater_0(m_->_map)', 0], [r'm\.slotMap\(\)\.highwater\(', 'SlotMap_highwater_1(m_->_map, ', 0],
            [r'm\.slotMap\(\)\.highpassed\(\)', 'SlotMap_highpassed_0(m_->_map)', 0]],
    'methods':['next'], 'self':['m_iMaxLoop'],
-   'loops':{1:'__CPROVER_assigns(s, lc, g_run, m_->_map->m_highwater, m_->_map->m_highpassed, m_->_status) __CPROVER_loop_invariant(lc >= 1 && lc <= self->m_iMaxLoop && g_run == self->m_iMaxLoop - lc)'},
+   'loops':{1:'__CPROVER_assigns(s, lc, g_run, g_s1, g_hw1, g_hp1, g_run1, m_->_map->m_highwater, m_->_map->m_highpassed, m_->_status) __CPROVER_loop_invariant(lc >= 1 && lc <= self->m_iMaxLoop && g_run == self->m_iMaxLoop - lc)'},
    'inserts':[[1, '++g_run; __CPROVER_assert(g_run <= self->m_iMaxLoop, "no more than m_iMaxLoop consecutive rule attempts without a reset of the loop counter");'],
               [r'lc = m_iMaxLoop;\s*if \(s\)', 'g_run = 0; __CPROVER_assert(s == (Slot *)0 || 1, "reset");', 'before'],
+              [r'if \(m\.status\(\) != Machine::finished\) return false;', 'g_s1 = s; g_hw1 = m_->_map->m_highwater; g_hp1 = m_->_map->m_highpassed; g_run1 = g_run;', 'before'],
+              [1, '__CPROVER_assert(s == g_s1 || (g_s1 != (Slot *)0 && g_s1 != g_hw1 && !g_hp1 && g_run1 == self->m_iMaxLoop), "the engine resumes at the position the rule returned; the cursor is moved (onto the high-water mark) only after m_iMaxLoop consecutive attempts that neither reached nor passed the high-water mark");', 'body_end'],
               [1, '__CPROVER_assert(g_run == 0 || (s != m_->_map->m_highwater || !s), "when the counter was not reset the cursor is not on the high-water mark");', 'body_end']]}@*/
 
 void h_loop(void)
